@@ -87,3 +87,31 @@ Theorem tz_keeps_instant : forall (d : zoned) z1 z2,
   fst (tz_convert d z1) = fst d /\ snd (tz_convert d z1) = z1 /\
   tz_convert (tz_convert d z1) z2 = tz_convert d z2.
 Proof. intros [t z] z1 z2. repeat split. Qed.
+
+(* ------------------------------------------------------------- zoned values *)
+Theorem zoned_arith : forall (d : zoned) (q : Q) (z z2 : string),
+  (* arithmetic keeps the zone *)
+  (forall d', zadd d q = Ok d' -> snd d' = snd d) /\
+  (forall d', zsub d q = Ok d' -> snd d' = snd d) /\
+  (* converting before or after the arithmetic is the same *)
+  zadd (tz_convert d z) q = res_map (fun d' => tz_convert d' z) (zadd d q) /\
+  zsub (tz_convert d z) q = res_map (fun d' => tz_convert d' z) (zsub d q) /\
+  (* a difference does not depend on the zones of its operands *)
+  (forall b : zoned, zdiff (tz_convert d z) (tz_convert b z2) = zdiff d b).
+Proof.
+  intros [t zn] q z z2. unfold zadd, zsub, zdiff, tz_convert. cbn [fst snd].
+  repeat split.
+  - intros d'. destruct (add_dt t q); intros H; inversion H; reflexivity.
+  - intros d'. destruct (sub_dt t q); intros H; inversion H; reflexivity.
+  - destruct (add_dt t q); reflexivity.
+  - destruct (sub_dt t q); reflexivity.
+Qed.
+
+Theorem zoned_add_sub : forall (d d' : zoned) q, in_range (fst d) = true ->
+  zadd d q = Ok d' -> zsub d' q = Ok d /\ (Qabs (zdiff d' d - q) <= half_ns)%Q.
+Proof.
+  intros [t zn] [t' zn'] q Ht H. unfold zadd, zsub, zdiff in *. cbn [fst snd] in *.
+  destruct (add_dt t q) as [e|t1] eqn:E; [discriminate|]. inversion H; subst.
+  destruct (add_sub t q t' Ht E) as (sn & _ & _ & Hs & _ & Hd).
+  rewrite Hs. split; [reflexivity|exact Hd].
+Qed.
